@@ -9,7 +9,7 @@ GEN2 = ("python3 {verif}/engine/gen_layout.py EbSvtAv1EncConfiguration EbSvtAv1E
 UNITS = [
     Unit(uid="U05.1.geometry_only", prop="C05", harness="harness/c05_threads.c", entry="h_frame", mode="plain",
          functions=["load_default_buffer_configuration_settings", "set_parent_pcs", "get_num_processors"],
-         pre_cmds=[GEN, GEN2], keep_bodies=["load_default_buffer_configuration_settings"], min_obligations=60,
+         pre_cmds=[GEN, GEN2], keep_bodies=["load_default_buffer_configuration_settings"], min_obligations=60, canaries=2,
          cover_functions=[], timeout=900, mem_gb=24, unwind=66, backend="cadical",
          what="frame: of the 118 leaf fields of SequenceControlSet only segment / tile-group / *_init_count / scd_delay "
               "fields may change; the 70 others (configuration, sequence header, sizes, quantizer tables ...) are "
